@@ -132,6 +132,7 @@ func (w *dworld) do(i int) {
 		}
 		var st int
 		done := true
+		si.acquiring = true
 		if slotGran {
 			si.desc = fmt.Sprintf("T%d acquireSlot", i)
 			st, done = w.L.VerifAcquireSlot(lock)
